@@ -10,3 +10,4 @@ CFG = dict(
     trusted=["ocaml/c01.ml transcribes the test message's schema (resolves / body_ok) and Go's int32 text grammar by hand", 'Spec/Template.v (the string-level reading of templates and instances used as SPECFAIL oracle) is not connected by a theorem to Spec/Route.v (the token-level relation the theorems use); both are run against the implementation on every case'],
     timeout=900,
 )
+CFG["rule"] += ' One rule verb in six is spelled as a custom kind in lower or mixed case (read as the upper-case verb).'
